@@ -281,8 +281,24 @@ def nested_target(kind, depth):
 NEST_PATCHES = {"expr": "@@\n@@\n-foo()\n+bar()\n", "stmt": "@@\n@@\n-foo()\n+bar()\n+baz()\n"}
 
 
+def long_list_target(n, where):
+    """A file of about 7 bytes per element with one list of n elements, in or next to the rewritten function."""
+    lst = "[]int{" + ", ".join(str(i % 97) for i in range(n)) + "}"
+    if where == "same":
+        return "package a\n\nfunc f() {\n\tfoo()\n\t_ = %s\n}\n" % lst
+    if where == "args":
+        return "package a\n\nfunc f() {\n\tfoo()\n\tsum(%s)\n}\n" % lst[6:-1]
+    return "package a\n\nvar table = %s\n\nfunc f() {\n\tfoo()\n}\n" % lst
+
+
 def part_targets(ctx, quick, recs, st):
     scs = []
+    # list length: memory and time may grow with the size of the file, not with the square of a list's length
+    for where in ("same", "other", "args"):
+        for n in (2000, 20000):
+            scs.append(dict(id="cli-longlist-%s-%d" % (where, n), files=[dict(path="s.go", content=long_list_target(n, where)), dict(path="p.patch", content=NEST_PATCHES["expr"])],
+                            dirs=[], symlinks=[], args=["--print-only", "-p", "p.patch", "s.go"], stdin="", cwd="", strace=False, timeout_ms=30000,
+                            as_limit=3 << 30))
     # nesting depth: the time taken may grow with the size of the file, not double with every level
     for kind in ("if", "for", "block", "func", "switch", "else"):
         for depth in (6, 14, 26):
